@@ -64,7 +64,312 @@ pub fn run(ctx: &Ctx) -> usize {
 }
 
 /// Re-runs one saved case. Err = still failing.
+/// [cases preceded by the fixed different-configuration workload, cases preceded by a near-identical sibling]
+pub static HISTORIES: [std::sync::atomic::AtomicU64; 2] = [const { std::sync::atomic::AtomicU64::new(0) }; 2];
+
+/// A deterministic predecessor of a case. peppi's public functions are meant to be pure: what a call
+/// returns must not depend on which calls were made earlier in the process (caches, statics, reused
+/// scratch buffers, lazily initialised tables). Cases share worker threads, so such state is exercised
+/// anyway, but not reproducibly; therefore one case in sixteen is preceded by this fixed little workload on
+/// a replay of a *different* version / port configuration, derived from the case itself, so that the
+/// replay file of a failure contains its own history. Results are ignored.
+pub fn warmup(key: u64) {
+	use crate::gen::{simple_model, Pattern};
+	use peppi::game::Game as _;
+	use std::io::Cursor;
+	static OFF: std::sync::OnceLock<bool> = std::sync::OnceLock::new();
+	if key % 16 != 0 || *OFF.get_or_init(|| std::env::var_os("PV_NO_WARMUP").is_some()) {
+		return;
+	}
+	HISTORIES[0].fetch_add(1, std::sync::atomic::Ordering::Relaxed);
+	let h = key >> 4;
+	const VERS: [(u8, u8, u8); 10] = [(0, 1, 0), (1, 0, 0), (2, 0, 1), (2, 2, 0), (3, 0, 0), (3, 5, 0), (3, 7, 0), (3, 9, 1), (3, 13, 0), (3, 16, 0)];
+	const PORTS: [&[(u8, bool)]; 5] = [&[(0, false)], &[(1, true), (3, false)], &[(0, false), (1, false), (2, false), (3, false)], &[(2, true)], &[(0, false), (3, true)]];
+	let v = VERS[(h % 10) as usize];
+	let m = simple_model(v, PORTS[((h >> 8) % 5) as usize], 2, h, Pattern::Random, ((h >> 16) % 3) as u8, (h >> 20) & 1 == 0);
+	let mut m = m;
+	if spec::gte(m.v(), (3, 3)) {
+		let blocks = 2 + (h >> 28) as usize % 2;
+		m.gecko = Some(crate::model::Gecko { bytes: vec![(h >> 30) as u8 | 1; blocks * 512], actual: (blocks * 512 - 9) as u32 });
+	}
+	let bytes = m.encode();
+	let _ = crate::rt::guard(|| -> Result<(), String> {
+		use peppi::io::slippi::de;
+		let o = crate::rt::slp_opts(false, true);
+		let g = peppi::io::slippi::read(Cursor::new(&bytes[..]), Some(&o)).map_err(|e| e.to_string())?;
+		if g.frames.len() > 0 {
+			let _ = g.frame(0);
+			let _ = g.frames.rollbacks(peppi::frame::Rollbacks::ExceptLast);
+		}
+		let _ = serde_json::to_string(&g.start);
+		let _ = serde_json::to_string(&g.end);
+		let mut w = Vec::new();
+		let _ = peppi::io::slippi::write(&mut w, &g);
+		let _ = peppi::io::slippi::read(Cursor::new(&bytes[..]), Some(&crate::rt::slp_opts(true, false)));
+		let version = g.start.slippi.version;
+		let occ = peppi::game::port_occupancy(&g.start);
+		let mut p = Vec::new();
+		let _ = peppi::io::peppi::write(&mut p, g, None);
+		if let Ok(g2) = peppi::io::peppi::read(Cursor::new(&p[..]), None) {
+			let _ = g2.frames.into_struct_array(version, &occ);
+		}
+		// the incremental API with a row view, and a read that fails half-way
+		let mut r = Cursor::new(&bytes[..]);
+		let size = de::parse_header(&mut r, None).map_err(|e| e.to_string())? as usize;
+		let mut st = de::parse_start(&mut r, None).map_err(|e| e.to_string())?;
+		while st.bytes_read() < size {
+			if de::parse_event(&mut r, &mut st, None).map_err(|e| e.to_string())? == spec::EV_GAME_END {
+				break;
+			}
+		}
+		if st.frames().len() > 1 {
+			let _ = st.frame(0);
+		}
+		let _ = peppi::io::slippi::read(Cursor::new(&bytes[..bytes.len() * 2 / 3]), None);
+		Ok(())
+	});
+	// an accepted name / version string, then the calls that are supposed to fail
+	let _ = crate::rt::guard(|| peppi::game::shift_jis::MeleeString::try_from(&[0x82u8, 0x65, 0x82, 0x8f, 0x00][..]));
+	let _ = format!("{}.{}.{}", v.0, v.1, v.2).parse::<peppi::io::slippi::Version>();
+	error_paths(&m, &bytes, h);
+}
+
+/// `Write` sink that fails once `left` bytes have been accepted (full disk, closed pipe).
+struct FailingSink {
+	left: usize,
+}
+impl std::io::Write for FailingSink {
+	fn write(&mut self, buf: &[u8]) -> std::io::Result<usize> {
+		if self.left == 0 {
+			return Err(std::io::Error::new(std::io::ErrorKind::Other, "injected sink failure"));
+		}
+		let n = buf.len().min(self.left);
+		self.left -= n;
+		Ok(n)
+	}
+	fn flush(&mut self) -> std::io::Result<()> {
+		Ok(())
+	}
+}
+
+/// Calls that are *supposed* to fail, as predecessors: reads cut inside Game Start, inside a frame
+/// and inside the metadata, over-deep metadata, an abandoned incremental session, both writers into a
+/// sink that fails part-way, a `.slpp` cut inside frames.arrow. Whatever they leave behind must not
+/// leak into the next call.
+fn error_paths(m: &ModelGame, bytes: &[u8], h: u64) {
+	use std::io::Cursor;
+	let cut_in_start = (15 + 2 + 3 * m.table().len() + 1 + ((h >> 24) as usize % 300)).min(bytes.len());
+	let offs = m.raw().event_offsets();
+	let cut_in_frame = (offs.get(offs.len() / 2).copied().unwrap_or(bytes.len() / 2) + 1 + ((h >> 32) as usize % 7)).min(bytes.len());
+	let opts = crate::rt::slp_opts((h >> 40) & 1 == 1, (h >> 41) & 1 == 1);
+	// successful preparations first: a parsed game and its archive
+	let game = || peppi::io::slippi::read(Cursor::new(bytes), None).ok();
+	let archive: Vec<u8> = game()
+		.and_then(|g| {
+			let mut p = Vec::new();
+			crate::rt::guard(|| peppi::io::peppi::write(&mut p, g, None).map_err(|e| e.to_string())).expect_ok("w").ok().map(|_| p)
+		})
+		.unwrap_or_default();
+	let deep: Vec<u8> = {
+		let mut d = m.clone();
+		let mut t = vec![("leaf".to_string(), crate::model::Meta::Int(1))];
+		for i in 0..(128 + (h >> 44) as usize % 40) {
+			t = vec![(format!("n{}", i % 5), crate::model::Meta::Map(t))];
+		}
+		d.metadata = Some(t);
+		d.encode()
+	};
+	// many kinds of hidden state heal after the next call, so the order of the failing calls is rotated:
+	// each kind is the *last* call before the case proper for some cases
+	// just after the first of several Message Splitter blocks (a Gecko list still being reassembled)
+	let cut_in_gecko = {
+		let raw = m.raw();
+		let sp: Vec<usize> = raw.events.iter().enumerate().filter(|(_, e)| e.code == spec::EV_SPLITTER).map(|(i, _)| i).collect();
+		if sp.len() >= 2 {
+			Some(offs[sp[0] + 1].min(bytes.len()))
+		} else {
+			None
+		}
+	};
+	const N: usize = 11;
+	for k in 0..N {
+		match (k + (h % N as u64) as usize) % N {
+			0 => {
+				let _ = crate::rt::guard(|| peppi::io::slippi::read(Cursor::new(&bytes[..cut_in_start]), Some(&opts)));
+			}
+			1 => {
+				let _ = crate::rt::guard(|| peppi::io::slippi::read(Cursor::new(&bytes[..cut_in_frame]), Some(&opts)));
+			}
+			2 => {
+				let _ = crate::rt::guard(|| peppi::io::slippi::read(Cursor::new(&bytes[..bytes.len().saturating_sub(2)]), Some(&opts)));
+			}
+			3 => {
+				// an incremental session abandoned in the middle of a frame
+				let _ = crate::rt::guard(|| -> Result<(), String> {
+					use peppi::io::slippi::de;
+					let mut r = Cursor::new(&bytes[..cut_in_frame]);
+					de::parse_header(&mut r, None).map_err(|e| e.to_string())?;
+					let mut st = de::parse_start(&mut r, None).map_err(|e| e.to_string())?;
+					for _ in 0..(offs.len() / 2 + 1) {
+						de::parse_event(&mut r, &mut st, None).map_err(|e| e.to_string())?;
+					}
+					Ok(())
+				});
+			}
+			4 => {
+				// metadata nested beyond the limit: refused
+				let _ = crate::rt::guard(|| peppi::io::slippi::read(Cursor::new(&deep[..]), None));
+			}
+			5 => {
+				if let Some(g) = game() {
+					let mut sink = FailingSink { left: bytes.len() * (1 + (h >> 48) as usize % 3) / 4 };
+					let _ = crate::rt::guard(|| peppi::io::slippi::write(&mut sink, &g));
+					// ... and one that fails inside the metadata block / closing braces
+					let mut sink = FailingSink { left: bytes.len().saturating_sub(1 + (h >> 46) as usize % 24) };
+					let _ = crate::rt::guard(|| peppi::io::slippi::write(&mut sink, &g));
+				}
+			}
+			6 => {
+				if let (Some(g), false) = (game(), archive.is_empty()) {
+					let mut sink = FailingSink { left: archive.len() - 1024.min(archive.len() / 2) - (h >> 50) as usize % 512 };
+					let _ = crate::rt::guard(|| peppi::io::peppi::write(&mut sink, g, None).map_err(|e| e.to_string()));
+				}
+			}
+			7 => {
+				if !archive.is_empty() {
+					let cut = archive.len().saturating_sub(1536 + (h >> 52) as usize % 700);
+					let _ = crate::rt::guard(|| peppi::io::peppi::read(Cursor::new(&archive[..cut]), None));
+				}
+			}
+			8 => {
+				let _ = crate::rt::guard(|| peppi::game::shift_jis::MeleeString::try_from(&[0x83u8, 0x41, 0x61, 0x82, 0x00][..]));
+			}
+			9 => {
+				if let Some(c) = cut_in_gecko {
+					let _ = crate::rt::guard(|| peppi::io::slippi::read(Cursor::new(&bytes[..c]), None));
+				}
+			}
+			_ => {
+				let _ = "3.16.256".parse::<peppi::io::slippi::Version>();
+				let _ = "7.x.0".parse::<peppi::io::slippi::Version>();
+				let _ = "2.0.x".parse::<peppi::io::peppi::Version>();
+			}
+		}
+	}
+}
+
+/// One case in sixteen (chosen by the file's hash): before the case proper, a *near-identical sibling*
+/// of the case's replay — same version and ports, but a different Gecko list size, metadata, item
+/// count or set of unknown events — goes through the public calls, including the failing ones above.
+/// (`warmup` covers state keyed too narrowly, e.g. a cache that ignores the ports; this covers state
+/// keyed too coarsely, e.g. a table memoised per version that also depends on the game.)
+pub fn sibling_history(m: &ModelGame, bytes: &[u8]) {
+	use std::io::Cursor;
+	static OFF: std::sync::OnceLock<bool> = std::sync::OnceLock::new();
+	let h = crate::rt::hash_bytes(bytes);
+	if h % 16 != 3 || m.version > spec::MAX_VERSION || *OFF.get_or_init(|| std::env::var_os("PV_NO_WARMUP").is_some()) {
+		return;
+	}
+	HISTORIES[1].fetch_add(1, std::sync::atomic::Ordering::Relaxed);
+	let mut s = m.clone();
+	let sel = (h >> 4) % 4;
+	if sel == 0 || sel == 3 {
+		if spec::gte(m.v(), (3, 3)) {
+			let blocks = 1 + (h >> 8) as usize % 3 + m.gecko.as_ref().map_or(0, |g| g.bytes.len() / 512);
+			s.gecko = Some(crate::model::Gecko { bytes: vec![(h >> 16) as u8; blocks * 512], actual: (blocks * 512 - (h >> 24) as usize % 500) as u32 });
+		} else {
+			s.frames.truncate(s.frames.len() / 2);
+		}
+	}
+	if sel == 1 || sel == 3 {
+		s.metadata = match &m.metadata {
+			Some(t) => {
+				let mut t = t.clone();
+				t.insert(0, (format!("sibling{}", h % 97), crate::model::Meta::Str("x".repeat((h >> 12) as usize % 200))));
+				Some(t)
+			}
+			None => Some(vec![("startAt".into(), crate::model::Meta::Str("2024".into()))]),
+		};
+	}
+	if sel == 2 {
+		if let Some(f) = s.frames.last_mut() {
+			if spec::gte(m.v(), (3, 0)) {
+				let it = crate::gen::payload(spec::Kind::Item, m.v(), h, crate::gen::Pattern::Random, m.extra.item);
+				f.items.push(it.clone());
+				f.items.push(it);
+			}
+		}
+		s.frames.rotate_left(0);
+	}
+	let mut raw = s.raw();
+	if sel >= 2 {
+		let dna: Vec<u8> = (0..64).map(|k| (h >> (k % 56)) as u8 ^ k as u8).collect();
+		c08::insert_unknown(&mut raw, &mut Dna::new(&dna), 3);
+	}
+	let sb = raw.serialize();
+	let _ = crate::rt::guard(|| -> Result<(), String> {
+		let g = peppi::io::slippi::read(Cursor::new(&sb[..]), Some(&crate::rt::slp_opts(false, true))).map_err(|e| e.to_string())?;
+		let mut w = Vec::new();
+		let _ = peppi::io::slippi::write(&mut w, &g);
+		let _ = peppi::io::slippi::read(Cursor::new(&sb[..]), Some(&crate::rt::slp_opts(true, true)));
+		let mut p = Vec::new();
+		let _ = peppi::io::peppi::write(&mut p, g, None);
+		let _ = peppi::io::peppi::read(Cursor::new(&p[..]), None);
+		Ok(())
+	});
+	// the failing calls and the near-identical read, either one last (single-entry caches remember the most
+	// recent call; stale state left by a failed call often heals after the next successful one)
+	let near_read = |bytes: &[u8]| {
+		// the case's own file with only its *last* unknown payload-table entry (and those payloads) one byte
+		// longer: same table length, same leading entries, different tail
+		if let Ok(mut near) = crate::model::walk(bytes) {
+			if let Some(k) = near.table.iter().rposition(|(c, _)| !spec::KNOWN_CODES.contains(c)) {
+				let (code, size) = near.table[k];
+				let new = if size == u16::MAX { size - 1 } else { size + 1 };
+				near.table[k].1 = new;
+				for e in near.events.iter_mut().filter(|e| e.code == code) {
+					e.payload.resize(new as usize, 0x5a);
+				}
+				near.raw_len = None;
+				let nb = near.serialize();
+				let _ = crate::rt::guard(|| peppi::io::slippi::read(Cursor::new(&nb[..]), None));
+			}
+		}
+	};
+	if (h >> 60) & 1 == 0 {
+		error_paths(&s, &s.encode(), h);
+		near_read(bytes);
+	} else {
+		near_read(bytes);
+		error_paths(&s, &s.encode(), h);
+	}
+}
+
+fn warm_key_of(kind: &str, params: &Value) -> u64 {
+	match params.get("dna").and_then(|d| d.as_str()) {
+		Some(hex) => crate::rt::warm_key_dna(&crate::rt::unhex(hex)),
+		None => crate::rt::warm_key_enum(kind, params.get("i").and_then(|i| i.as_u64()).unwrap_or(0) as usize),
+	}
+}
+
 pub fn replay(ctx: &Ctx, kind: &str, params: &Value) -> Result<(), Fail> {
+	// a recorded history (cases that ran before the failing one on its thread) is re-enacted first
+	if let Some(h) = params.get("history").and_then(|h| h.as_array()) {
+		for item in h {
+			let mut p = params.clone();
+			if let Some(obj) = p.as_object_mut() {
+				obj.remove("history");
+				match item {
+					Value::String(_) => obj.insert("dna".into(), item.clone()),
+					_ => obj.insert("i".into(), item.clone()),
+				};
+			}
+			let _ = replay(ctx, kind, &p);
+		}
+	}
+	if kind != "fuzz" {
+		warmup(warm_key_of(kind, params));
+	}
 	if kind == "fuzz" {
 		return fuzz_one(params["target"].as_str().unwrap_or(""), &crate::rt::unhex(params["input"].as_str().unwrap_or("")));
 	}
